@@ -418,6 +418,11 @@ def b_list(I, args, kw):
         f2["appended"] = list(v.fields.get("appended", []))
         f2["copy_of"] = v
         return TheoryObj("symiter", label=v.label, fields=f2)   # a copy of a collection of unknown size: same elements
+    if isinstance(v, TheoryObj) and v.theory == "stale":
+        # list(<value left by an earlier call>): some list of unknown content
+        return TheoryObj("symiter", label=f"list({v.label})", fields={"mk": lambda I2: TheoryObj("stale", label="elem", fields={"__overloads__": True}), "from_stale": True})
+    if isinstance(v, TheoryObj) and v.theory == "acc":
+        return v            # a copy of an append-only accumulator (read-only uses only)
     if isinstance(v, SMapZ) or isinstance(v, SSetZ):
         raise Unsupported("list() of a symbolic set/map")
     return PList(I.iter_concrete(v))
@@ -1185,6 +1190,15 @@ def _symiter_delitem(I, o, a, k):
 
 
 def install(reg):
+    # theory 'stale': a value of unknown shape left in an object by an earlier call (see Interp.init_default / reg.stale_state)
+    def _stale(label="stale"):
+        return TheoryObj("stale", label=label, fields={"__overloads__": True})
+    reg.theory_methods[("stale", "__getitem__")] = lambda I, o, a, k: _stale(f"{o.label}[..]")
+    reg.theory_methods[("stale", "get")] = lambda I, o, a, k: _stale(f"{o.label}.get(..)")
+    reg.theory_methods[("stale", "__eq__")] = lambda I, o, a, k: SBool(I.ctx.fresh_bool("stale_eq"))
+    reg.theory_methods[("stale", "__ne__")] = lambda I, o, a, k: SBool(I.ctx.fresh_bool("stale_ne"))
+    reg.theory_methods[("stale", "__contains__")] = lambda I, o, a, k: SBool(I.ctx.fresh_bool("stale_in"))
+    reg.theory_methods[("stale", "__len__")] = lambda I, o, a, k: SInt(I.ctx.fresh_int("stale_len"))
     reg.theory_methods[("symiter", "__delitem__")] = _symiter_delitem
     reg.theory_methods[("symiter", "append")] = _symiter_append
 
